@@ -20,15 +20,27 @@ for d in sorted(glob.glob('/verif/seeded/*/')):
     needs = meta.get('needs', '')
     rows.append((name, meta.get('property', ''), ', '.join(f.replace('exactpack/solvers/', '') for f in files), 'yes' if meta.get('confirmed') else str(meta.get('status', 'no')),
                  ', '.join(caught) or '—', ', '.join(missed) or '—', first, needs))
+def short(x, n=150):
+    x = re.sub(r'\s+', ' ', x.replace('|', '/'))
+    return x if len(x) <= n else x[:n - 1] + '…'
 out = ['## 11. Seeded changes: which checks catch which', '',
-       'Independent sub-agents were given only the text of one property and a scratch worktree and asked for a change that breaks the property while the whole',
-       'unedited suite still passes, preferably one that needs something specific to manifest.  Each change was confirmed in a scratch worktree',
-       '(`selftest/confirm_mutant.sh`: demo fails with the patch, full suite = baseline, demo passes on the clean tree) and is kept under',
-       '`seeded/<id>/` (patch.diff re-based on the current /repo HEAD, demo.py, notes.md, meta.json, detection.json).  `selftest/run_seeded.py` applies',
-       'each patch to /repo, runs the quick checks, and reverts.', '',
-       '| seeded change | target | files | confirmed | caught by | run but missed | first clause reported |', '|---|---|---|---|---|---|---|']
+       'Independent sub-agents were given only the text of one property and a scratch worktree (never anything from /verif) and asked for two changes that break',
+       'the property while the whole unedited suite still passes, preferring changes that need something specific to manifest.  Two rounds were run (m1, m2: round 1;',
+       'm3, m4: round 2, steered away from the files of round 1).  Each change was confirmed in a scratch worktree (`selftest/confirm_mutant.sh`: demo fails with the',
+       'patch, full suite = baseline, demo passes on the clean tree) and is kept under `seeded/<id>/` (patch.diff, demo.py, notes.md, meta.json with what it needs in',
+       'order to manifest, detection.json).  `selftest/run_seeded.py` applies each patch, runs the quick checks named, and reverts (on /repo itself, or on a private',
+       'snapshot of /repo and /verif when /repo is busy).  The table is the last complete run; "run but missed" lists checks that were run against the change and stayed quiet.', '',
+       '**What the misses taught** (each led to a change of the machinery, after which the change is caught): a known finding keyed too broadly hid a flux defect',
+       '(C12-m2); a Dump that had nothing to dump made the replay drop the behaviour with the raised Call (C05 round 2); class-level caches are invisible to a scan',
+       'that builds one solver per process (bystander; C15-m1, C18-m2, C01-m3, C17-m3, C10-m4); per-object leftovers are invisible to a scan whose solver has no past',
+       '(own-past call; C11-m4, C17-m2); a floor that drowned every term made a clause vacuous (C01-m3); the quick tier did not contain a zero boundary value (C14-m3),',
+       'a non-default density (C12-m3), a time other than the constructor default (C04-m3), a fan on the top side (C19-m1), the special Sedov exponents (C11-m3), the',
+       'foot of the Su-Olson wave (C18-m4), a pre-shock pressure in the Newton probes (C16-m4), Guderley at all (C03-m3, C08-m4, C10-m3, C06-m4), slow-looking classes',
+       'that are in fact fast (C06-m3); a coverage obligation turned a broken solver into a machinery failure (C19-m2); an unresolvable profile was skipped instead of',
+       'judged (C04-m4); integer position arrays were never used (C15-m3: led to fix 20b7b45).', '',
+       '| seeded change | target | files | confirmed | needs, in order to manifest | caught by | run but missed | first clause reported |', '|---|---|---|---|---|---|---|---|']
 for r in rows:
-    out.append('| %s | %s | %s | %s | %s | %s | %s |' % r[:7])
+    out.append('| %s | %s | %s | %s | %s | %s | %s | %s |' % (r[0], r[1], r[2], short(r[3], 40), short(r[7]), r[4], r[5], short(r[6], 80)))
 out.append('')
 block = '\n'.join(out)
 s = open('/verif/DESIGN.md').read()
